@@ -142,6 +142,33 @@ def bounded(check, tier):
     s.done()
 
 
+def long_inputs(check, tier):
+    """size is part of "every str": sequences whose parameters have thousands of digits (int() refuses more than 4300 digits by
+    default), thousands of parameters, thousands of sequences, introducers nested thousands deep, very long text"""
+    s = Suite(check, "C17.long", "sequences with 1 .. 20000-digit parameters (final bytes m, A, H, ~ and none), 1 .. 5000 parameters, 3000 "
+              "sequences in a row, ESC[ repeated 3000 times, 200 000 characters of text around a sequence: no exception, ordinary text kept",
+              bound="<= 200 000 characters")
+    cases = []
+    for n in (1, 18, 19, 20, 100, 640, 4299, 4300, 4301, 5000, 20000):
+        for fin in ("m", "A", "H", "~", ""):
+            for d in ("1", "9", "0"):
+                cases.append("\x1b[" + d * n + fin + "up")
+        cases.append("a\x1b[3" + "1" * n + ";4" + "2" * n + "mb")
+    for n in (10, 1000, 5000):
+        cases.append("\x1b[" + ";".join(["1"] * n) + "mx")
+        cases.append("\x1b[" + ";" * n + "mx")
+        cases.append("x" + "\x1b[31m" * n + "y" + "\x1b[0m" * n)
+        cases.append("\x1b[" * n + "z")
+        cases.append("\x1b" * n + "[m")
+    cases.append("a" * 100000 + "\x1b[32mb\n" + "c" * 100000)
+    for st in cases:
+        s.case(hash(st), sample=dict(s=st[:40] + "...", length=len(st)) if len(s.samples) < 2 else None)
+        d = judge(st)
+        if d:
+            s.fail("C17.fmtstr.long", dict(s=st if len(st) < 200 else st[:60] + f"...({len(st)} characters)...", length=len(st)), d[:400])
+    s.done()
+
+
 def deductive(check, tier):
     """the clause "text without introducers is returned unchanged and unformatted" for the larger class of strings free of 'ESC[':
     the real bodies of fmtstr (no formatting arguments) and FmtStr.from_str, all such strings (contracts/formatstring.py)"""
@@ -155,3 +182,4 @@ def deductive(check, tier):
 def run(check, tier, seed):
     deductive(check, tier)
     bounded(check, tier)
+    long_inputs(check, tier)
